@@ -4,6 +4,7 @@
 package valgen
 
 import (
+	"strings"
 	"bytes"
 	"fmt"
 	"hash/fnv"
@@ -103,7 +104,23 @@ func RootName(root int, v reflect.Value) string {
 	return "random:" + v.Type().String()
 }
 
-var stringsPool = []string{"", "a", "hello", "quote\"s", "new\nline", "back`tick", "\xff\xfe", "世界", "tab\t", "\\", "nul\x00", "'", "%v@x'", "é", " lead", " ", "a\xc3"}
+// strFragments: composed strings are 1-6 of these in a row (line ends of every kind, both quote characters, escapes,
+// NUL, BOM, line / paragraph separators, invalid UTF-8, template and format metacharacters)
+var strFragments = []string{"\n", "\r", "\r\n", "`", "\"", "\\", "\x00", "\ufeff", "\u2028", "\u2029", "\u0085", "a", "line", "é", "世", "\xff", "\xed\xa0\x80", "%", "@x", "'", "\t", " ", "\x7f", "\x1b", "${x}", "//", "/*", "*/"}
+
+// RandString: half of the time one of the pool strings, otherwise a composition of fragments.
+func RandString(r *rand.Rand) string {
+	if r.Intn(2) == 0 {
+		return stringsPool[r.Intn(len(stringsPool))]
+	}
+	var b strings.Builder
+	for i, n := 0, 1+r.Intn(6); i < n; i++ {
+		b.WriteString(strFragments[r.Intn(len(strFragments))])
+	}
+	return b.String()
+}
+
+var stringsPool = []string{"", "a", "hello", "quote\"s", "new\nline", "back`tick", "\xff\xfe", "世界", "tab\t", "\\", "nul\x00", "'", "%v@x'", "é", " lead", " ", "a\xc3", "line one\r\nline two\r\n", "a\nb\x00", "\n\ufeffbom", "multi\nline\ntext\n", "cr\ronly"}
 var runePool = []rune{'a', '\'', '\n', 0, 0x10FFFF, -1, 'é', '世', 0xD800, '"', '\\', 127, 0x80, ' '}
 var f64Pool = []float64{0, math.Copysign(0, -1), 1, -1, 0.1, 1e21, 1e20, math.MaxFloat64, -math.MaxFloat64, math.SmallestNonzeroFloat64, 1.5, 1e-7, 123456789.125, 1e300, 3, 1 << 53, 0.30000000000000004}
 var f32Pool = []float32{0, 1, -1, 0.1, 1e21, math.MaxFloat32, math.SmallestNonzeroFloat32, 1.5, 16777216, 3.4e38, 1e-45, 0.3}
@@ -174,7 +191,7 @@ func fill(r *rand.Rand, v reflect.Value, depth int) {
 			v.SetFloat(f64Pool[r.Intn(len(f64Pool))])
 		}
 	case reflect.String:
-		v.SetString(stringsPool[r.Intn(len(stringsPool))])
+		v.SetString(RandString(r))
 	case reflect.Ptr:
 		if r.Intn(4) == 0 {
 			return
